@@ -38,6 +38,7 @@ func verifRepl_fetchAndCachePackages(pwd string, urls []string) ([]string, error
 }
 
 func verifMaterialise() {
+	verifUseRepl("readPackageInfo", "fetchAndCachePackages")
 	if !verifNative() {
 		return
 	}
